@@ -2,8 +2,8 @@ package main
 
 import (
 	"fmt"
-	"hash/fnv"
 	"go/types"
+	"hash/fnv"
 	"sort"
 	"strconv"
 	"strings"
@@ -162,9 +162,8 @@ func sidx(off, i string) string {
 	if off == "0" {
 		return i
 	}
-	if i == "0" {
-		return off
-	}
+	// a constant index 0 keeps its wrapper: the quantified element facts of the theories are triggered on the term
+	// (sidx off i), and "xs[0]" written as plain "off" never matched them
 	return "(sidx " + off + " " + i + ")"
 }
 
